@@ -752,8 +752,8 @@ Lemma eval_eq n P env0 ei m t :
   match ei with
   | ETrue => Done (VBool true, env0)
   | EFalse => Done (VBool false, env0)
-  | ENumU k => Done (VInt (Z.of_N k), env0)
-  | ENumS z => Done (VInt z, env0)
+  | ENumU k _ => Done (VInt (Z.of_N k), env0)
+  | ENumS z _ => Done (VInt z, env0)
   | EId x => match lookup_var env0 x with Some v => Done (v, env0) | None => Stuck 30 end
   | EArrLit es => do (vs, en) <- ev_list ev es env0; Done (VArr vs, en)
   | EArrRep e1 k => do (v, en) <- ev env0 e1; Done (VArr (repeat v (N.to_nat k)), en)
@@ -1240,7 +1240,7 @@ Section Sound.
     Qed.
 
     Lemma case_lit fw g ei m t en :
-      match ei with ETrue | EFalse | ENumU _ | ENumS _ | ERange _ _ _ => True | _ => False end ->
+      match ei with ETrue | EFalse | ENumU _ _ | ENumS _ _ | ERange _ _ _ => True | _ => False end ->
       WTe fw g (Ex ei m t) -> genv P g -> env_ok P (scopes en) g ->
       res (QE g t) (eval (S n) P en (Ex ei m t)).
     Proof.
